@@ -47,5 +47,19 @@ pub assume_specification<'a, T, S, A: Allocator>[ <&'a HashSet<T, S, A> as IntoI
             forall|i: int| 0 <= i < r.remaining().len() ==> s@.contains(*#[trigger] r.remaining()[i]),
             forall|x: T| s@.contains(x) ==> exists|i: int| 0 <= i < r.remaining().len() && *#[trigger] r.remaining()[i] == x;
 
+
+// HashSet::clone yields the same abstract set
+pub assume_specification<T: Clone, S: Clone, A: Allocator + Clone>[ <HashSet<T, S, A> as Clone>::clone ]
+    (s: &HashSet<T, S, A>) -> (r: HashSet<T, S, A>)
+    ensures r@ == s@;
+
+// W1: `for x in <owned HashSet>` — std::collections::hash_set::IntoIter cannot be given an
+// iterator specification from outside vstd (orphan rule), so the iteration source is wrapped:
+// the elements are visited once each, in some order.
+#[verifier::external_body]
+pub fn owned_set_iteration_order<T>(s: HashSet<T>) -> (r: Vec<T>)
+    ensures r@.no_duplicates(), r@.to_set() == s@,
+{ s.into_iter().collect() }
+
 } // verus!
 } // mod vpre
